@@ -327,7 +327,9 @@ def install_world(sim):
 
 # -------------------------------------------------------------------------------------------------------- running
 def describe_exception(exc):
-    return {"exc": type(exc).__name__}
+    """type name plus the names of its bases: 'is a NotImplementedError' must also hold for a subclass"""
+    bases = [c.__name__ for c in type(exc).__mro__[1:] if c.__name__ not in ("object", "BaseException", "Exception")]
+    return {"exc": type(exc).__name__, "bases": bases}
 
 
 def run_requests(scenario, do_op, step_cap=200_000):
